@@ -65,7 +65,7 @@ fn full_universe() -> Vec<AQuad> {
 }
 fn list_universe() -> Vec<AQuad> {
     let subjects = [ATerm::b("a"), ATerm::b("l"), ex("s")];
-    let preds = [rdf("first"), rdf("rest"), ex("p")];
+    let preds = [rdf("first"), rdf("rest"), ex("p"), rdf("type")];
     let objects = [ATerm::b("a"), ATerm::b("l"), rdf("nil"), ex("o"), ATerm::lit("v")];
     let graphs = [None, Some(ex("g"))];
     let mut v = vec![];
@@ -106,7 +106,8 @@ fn list_structures() -> Vec<Vec<AQuad>> {
                 for second_first in [false, true] {
                     for tail in 0..3u8 {
                         // 0: nil, 1: cyclic back to head, 2: shared tail referenced from elsewhere too
-                        for refs in 0..3u8 {
+                        // head referenced 0 / 1 / 2 times, or once as the object of rdf:type
+                        for refs in 0..4u8 {
                             for head_graph in 0..2u8 {
                                 let g = |named: bool| if named { Some(ex("g")) } else { None };
                                 let cg = g(head_graph == 1);
@@ -139,10 +140,12 @@ fn list_structures() -> Vec<Vec<AQuad>> {
                                 }
                                 // head referenced 0 / 1 / 2 times; the second reference from the other graph
                                 let head = ATerm::b(cells[0]);
-                                if refs >= 1 {
+                                if refs == 3 {
+                                    q.push(([ex("s"), rdf("type"), head.clone()], cg.clone()));
+                                } else if refs >= 1 {
                                     q.push(([ex("s"), ex("p"), head.clone()], cg.clone()));
                                 }
-                                if refs >= 2 {
+                                if refs == 2 {
                                     q.push(([ex("s2"), ex("q"), head.clone()], g(head_graph == 0)));
                                 }
                                 out.push(q);
